@@ -21,8 +21,8 @@ STR_LITS = ["", "a", "ab", "b%", "a_c", "o'x", "x\\y", " pad ", "abcabc", "%", "
             # plus-as-space, backslash escapes, non-NFC text, entities
             "a%41b", "a+b", "a\\nb", "e\u0301", "&amp;"]
 DT_LITS = ["2020-01-01T00:00:00", "2019-12-31T23:59:59", "2021-06-15T12:30:45",
-           "2000-02-29T06:07:08"]
-DATE_LITS = ["2020-01-01", "2019-12-31", "2021-06-15", "2000-02-29"]
+           "2000-02-29T06:07:08", "0001-01-01T00:00:00", "9999-12-31T23:59:59"]
+DATE_LITS = ["2020-01-01", "2019-12-31", "2021-06-15", "2000-02-29", "0001-01-01", "9999-12-31"]
 TIME_LITS = ["00:00:00", "12:30:45", "23:59:59"]
 GUID_LITS = ["6c0e37e3-e856-45ee-bd58-484b11882c67", "00000000-0000-0000-0000-000000000001"]
 DUR_LITS = ["P1D", "PT1H", "P1DT2H3M4S", "-P2D", "PT0.5S"]
@@ -105,6 +105,7 @@ class Profile:
         self.pattern_columns = True            # contains(s, u): column-valued pattern
         self.pattern_exprs = True              # contains(s, tolower(u))
         self.max_list = 3
+        self.same_operands = True              # e op e, X and X, X or not X, not not X
         self.field_chains = True               # x eq 1 or x eq 2 or x eq null
         self.unique_leaves = False             # C09: every leaf occurrence unique
         self.__dict__.update(kw)
@@ -256,10 +257,17 @@ def gen_bool(rng, p, depth):
     if r < 0.40:
         return gen_atom(rng, p, depth)
     if r < 0.80:
-        return ("bool", rng.choice(["and", "or"]), gen_bool(rng, p, depth - 1),
-                gen_bool(rng, p, depth - 1))
+        l = gen_bool(rng, p, depth - 1)
+        if p.same_operands and rng.random() < 0.05:
+            # X and X, X or not X: shapes a simplifier would fold
+            rr = l if rng.random() < 0.5 or not p.not_op else ("un", "not", l)
+            return ("bool", rng.choice(["and", "or"]), l, rr)
+        return ("bool", rng.choice(["and", "or"]), l, gen_bool(rng, p, depth - 1))
     if r < 0.92 and p.not_op:
-        return ("un", "not", gen_bool(rng, p, depth - 1))
+        x = gen_bool(rng, p, depth - 1)
+        if p.same_operands and rng.random() < 0.08:
+            return ("un", "not", ("un", "not", x))        # double negation
+        return ("un", "not", x)
     if p.bool_cmp:
         op = rng.choice(["eq", "ne"])
         l = gen_bool_operand(rng, p, depth - 1)
@@ -297,6 +305,8 @@ def gen_atom(rng, p, depth, allow_bare_col=True):
             op = rng.choice(["eq", "ne", "lt", "le", "gt", "ge"])
             l = gen(rng, p, typ, depth - 1)
             rr = gen(rng, p, typ, depth - 1)
+            if p.same_operands and rng.random() < 0.05:
+                rr = l          # the very same sub-expression on both sides (a add 1 eq a add 1)
             if typ == "float":
                 # int/float mixing in comparisons
                 if rng.random() < 0.3:
